@@ -17,6 +17,7 @@ from mdsa.astutil import call_attr, call_recv, kwarg, local_calls, norm, store_t
 from mdsa.cfg import CFG, walk_local
 from mdsa.loader import AnalysisError, NoFold
 
+from .sem import F
 from .common import Ctx, local_defs, node_of, slice_roots
 from .wrapmodel import NODE_CLASSES, W, factory_call_info, factory_uses, getattr_raw_call, guard_aware_cfg, is_raw_expr
 
@@ -429,6 +430,100 @@ def r3_listings(P, rep, ctx):
 
 
 # ------------------------------------------------------------------------------------------- R4
+def _last_segment_on_path(stmts) -> Optional[ast.AST]:
+    """The expression that forms the last '/'-separated segment of the returned path, following one path's statements:
+    list variables are tracked by their last element, string variables by their value."""
+    lasts: Dict[str, Optional[ast.AST]] = {}  # list variable -> expression of its last element (None: unknown)
+    strs: Dict[str, ast.AST] = {}
+
+    def list_last(e):
+        if isinstance(e, ast.Name):
+            return lasts.get(e.id)
+        if isinstance(e, ast.BinOp) and isinstance(e.op, ast.Add):
+            r = list_last(e.right)
+            return r
+        if isinstance(e, (ast.List, ast.Tuple)) and e.elts:
+            x = e.elts[-1]
+            return list_last(x.value) if isinstance(x, ast.Starred) else x
+        return None
+
+    def str_last(e):
+        if isinstance(e, ast.Name) and e.id in strs:
+            return str_last(strs[e.id])
+        if isinstance(e, ast.Call) and call_attr(e) == "join" and isinstance(e.func.value, ast.Constant) and e.func.value.value == "/" and e.args:
+            return list_last(e.args[0])
+        if isinstance(e, ast.BinOp) and isinstance(e.op, ast.Add):
+            # X + "/" + tail  |  "/" + tail : the tail is the last segment when a separator precedes it
+            parts = []
+
+            def flat(x):
+                if isinstance(x, ast.BinOp) and isinstance(x.op, ast.Add):
+                    flat(x.left)
+                    flat(x.right)
+                else:
+                    parts.append(x)
+
+            flat(e)
+            for i in range(len(parts) - 1, -1, -1):
+                if isinstance(parts[i], ast.Constant) and isinstance(parts[i].value, str) and parts[i].value.endswith("/"):
+                    tail = parts[i + 1:]
+                    if not tail:
+                        return None
+                    r = tail[0]
+                    for x in tail[1:]:
+                        r = ast.BinOp(left=r, op=ast.Add(), right=x)
+                    return r
+            return None
+        if isinstance(e, ast.JoinedStr):
+            vals = list(e.values)
+            for i in range(len(vals) - 1, -1, -1):
+                if isinstance(vals[i], ast.Constant) and isinstance(vals[i].value, str) and vals[i].value.endswith("/"):
+                    tail = vals[i + 1:]
+                    if not tail:
+                        return None
+                    if len(tail) == 1 and isinstance(tail[0], ast.FormattedValue):
+                        return tail[0].value
+                    return ast.JoinedStr(values=tail)
+            return None
+        return None
+
+    for st in stmts:
+        if isinstance(st, (ast.Assign, ast.AnnAssign)) and st.value is not None:
+            tg = st.targets[0] if isinstance(st, ast.Assign) else st.target
+            if isinstance(tg, ast.Name):
+                ll = list_last(st.value)
+                if ll is not None:
+                    lasts[tg.id] = ll
+                else:
+                    lasts.pop(tg.id, None)
+                    strs[tg.id] = st.value
+            elif isinstance(tg, ast.Subscript) and isinstance(tg.value, ast.Name) and norm(tg.slice) == "-1":
+                lasts[tg.value.id] = st.value
+            elif isinstance(tg, ast.Subscript) and isinstance(tg.value, ast.Name):
+                lasts.pop(tg.value.id, None) if norm(tg.slice) != "0" else None
+        elif isinstance(st, ast.AugAssign) and isinstance(st.target, ast.Name):
+            ll = list_last(st.value)
+            if ll is not None:
+                lasts[st.target.id] = ll
+            else:
+                lasts.pop(st.target.id, None)
+        elif isinstance(st, ast.Expr) and isinstance(st.value, ast.Call) and isinstance(st.value.func, ast.Attribute) and isinstance(st.value.func.value, ast.Name):
+            nm, at = st.value.func.value.id, st.value.func.attr
+            if at == "append" and st.value.args:
+                lasts[nm] = st.value.args[0]
+            elif at == "extend" and st.value.args:
+                ll = list_last(st.value.args[0])
+                if ll is not None:
+                    lasts[nm] = ll
+                else:
+                    lasts.pop(nm, None)
+            elif at in ("pop", "insert", "remove", "clear", "reverse", "sort"):
+                lasts.pop(nm, None)
+        elif isinstance(st, ast.Return) and st.value is not None:
+            return str_last(st.value)
+    return None
+
+
 def r4_predicates(P, rep, ctx):
     pref = P.const(U, "METADOR_PREF")
     meta = P.const(U, "METADOR_META_PREF")
@@ -472,21 +567,28 @@ def r4_predicates(P, rep, ctx):
     rep.check(n_use >= 5, "C08.R4", "container", f"bookkeeping paths are classified through is_internal_path / is_meta_base_path ({n_use} uses)", P.module("container.interface").relpath, construct="predicate uses", message="the container code no longer uses the path predicates")
     fm = P.func("container.interface.TOCLinks.find_missing")
     cm = fm.nested.get("collect_missing")
-    t = norm(cm.node) if cm else ""
-    rep.check("if not M.is_internal_path(node.name, M.METADOR_META_PREF): return" in t.replace("\n", " "), "C08.R4", fm.qual, "metadata objects are identified by the segment-prefix predicate with the metadata prefix", fm.loc(), construct="find_missing filter", message="find_missing does not identify metadata nodes with is_internal_path(node.name, METADOR_META_PREF)")
+    okf = False
+    if cm is not None:
+        cmf = F(ctx, cm)
+        nd = cm.params[1]
+        internal = cmf.tests(f"M.is_internal_path({nd}.name, M.METADOR_META_PREF)")
+        app = cmf.calls(f"__m.append({nd})")
+        okf = bool(internal) and bool(app) and cmf.all_hit_before(app, edges=internal)
+    rep.check(okf, "C08.R4", fm.qual, "metadata objects are identified by the segment-prefix predicate with the metadata prefix", fm.loc(), construct="find_missing filter", message="find_missing does not identify metadata nodes with is_internal_path(node.name, METADOR_META_PREF)")
     fi = P.func(f"{U}.to_meta_base_path")
+    try:
+        paths = F(ctx, fi).node_paths()
+    except ValueError as e:
+        raise AnalysisError(f"to_meta_base_path: {e}")
     n = 0
-    joined = {c.args[0].id for c in local_calls(fi.node) if isinstance(c.func, ast.Attribute) and c.func.attr == "join" and c.args and isinstance(c.args[0], ast.Name)}
-    for st in walk_local(fi.node):
-        vals = []
-        if isinstance(st, ast.Assign) and any(isinstance(t, ast.Subscript) and isinstance(t.value, ast.Name) and t.value.id in joined and norm(t.slice) == "-1" for t in st.targets):
-            vals.append(st.value)
-        if isinstance(st, ast.Call) and call_attr(st) == "append" and isinstance(st.func.value, ast.Name) and st.func.value.id in joined:
-            vals += st.args
-        for v in vals:
-            n += 1
-            t = norm(v)
-            rep.check(t == "METADOR_META_PREF" or t.startswith("METADOR_META_PREF +"), "C08.R4", fi.qual, f"metadata base segment starts with METADOR_META_PREF ({t})", fi.loc(st),
-                      construct=f"segment {t.split('+')[0].strip()}", message=f"to_meta_base_path builds a segment that does not start with the reserved prefix: {t}")
+    for lits, stmts in paths:
+        last = _last_segment_on_path(stmts)
+        if last is None:
+            raise AnalysisError("to_meta_base_path: cannot determine the last segment of the result on the path " + " & ".join(("" if tv else "not ") + k for k, tv in lits))
+        n += 1
+        t = norm(last)
+        key = " & ".join(("" if tv else "not ") + k for k, tv in lits) or "always"
+        rep.check(t == "METADOR_META_PREF" or t.startswith("METADOR_META_PREF +") or t.startswith("f'{METADOR_META_PREF}"), "C08.R4", fi.qual, f"last segment of the metadata base path starts with METADOR_META_PREF ({t}) when {key}", fi.loc(),
+                  construct=f"segment when {key}", message=f"to_meta_base_path builds a last segment that does not start with the reserved prefix: {t}")
     if n < 3:
-        raise AnalysisError("to_meta_base_path: expected 3 segment constructions")
+        raise AnalysisError("to_meta_base_path: expected 3 result paths")
